@@ -1,7 +1,9 @@
 SPECIFICATION Spec
 CONSTANTS
-  NStmt = 3
-  Patterns <- PatQuick
-  TailPatterns <- TailQuick
+  NStmt = 2
+  Patterns <- PatGen
+  TailPatterns <- TailGen
+  JoinOpts <- JoinAll
+  EatOpts <- EatQuick
   LeadModes <- LeadInts
   TrailModes <- TrailInts
